@@ -468,6 +468,7 @@ class Engine:
         vals = []
         extra = []
         while len(vals) <= limit:
+            if time.time() > st.deadline: raise Inconclusive('wall budget exhausted while enumerating the values of a symbolic size/address')
             m = s.sc.check(st.pc, z3.And(*extra) if extra else None)
             if m is None: break
             v = m.eval(e, model_completion=True).as_long()
